@@ -39,13 +39,20 @@ def json_mutations(doc):
     add('shape1-1', lambda d: d['shape'].__setitem__(1, d['shape'][1] - 1))
     add('shape:one', lambda d: d.__setitem__('shape', [d['shape'][0]]))
     add('shape:str', lambda d: d.__setitem__('shape', ['a', d['shape'][1]]))
+    if R == 1:
+        add('shape:true', lambda d: d['shape'].__setitem__(0, True))
+    if C == 1:
+        add('shape:true1', lambda d: d['shape'].__setitem__(1, True))
     v = 1.5
     for name, trip in (('row=R', [R, 0, v]), ('col=C', [0, C, v]),
                        ('row=-1', [-1, 0, v]), ('col=-1', [0, -1, v]),
                        ('row=0.5', [0.5, 0, v]), ('row=str', ['0', 0, v]),
                        ('arity2', [0, 0]), ('arity4', [0, 0, v, v]),
                        ('val=str', [0, 0, 'x']), ('val=null', [0, 0, None]),
-                       ('val=list', [0, 0, [1]])):
+                       ('val=list', [0, 0, [1]]),
+                       ('row=true', [True, 0, v]), ('col=true', [0, True, v]),
+                       ('row=false', [False, False, v]),
+                       ('val=true', [0, 0, True])):
         add('coord:' + name, lambda d, t=trip: d['data'].append(list(t)))
     add('coord:frac_in_int', lambda d: (
         d.__setitem__('matrix_element_type', 'int'),
@@ -455,11 +462,22 @@ def c15_validate(w, ev, slot):
     if a % 2 == 0 or not h5_grammar_ok(ref) or \
             _group_md_text(slot.real) is False:
         # JSON
-        text = t.to_json('sim-validate',
-                         creation_date=datetime.datetime(2020, 2, 3, 4, 5, 6))
+        kw = {}
+        if not (a >> 4) & 1:
+            # otherwise: the writer's own default date (simulated clock)
+            kw['creation_date'] = datetime.datetime(
+                2020, 2, 3, 4, 5, 6, (a >> 5) % 2 * 654321)
         path = store.new_path(w, '.json.biom')
-        with open(path, 'w') as f:
-            f.write(text)
+        if (a >> 3) & 1:
+            with open(path, 'w') as f:
+                t.to_json('sim-validate', direct_io=f, **kw)
+            with open(path) as f:
+                text = f.read()
+            w.stats['c15.json.direct_io'] += 1
+        else:
+            text = t.to_json('sim-validate', **kw)
+            with open(path, 'w') as f:
+                f.write(text)
         verdict, report = _validate(path, via_command=bool(a & 4))
         os.unlink(path)
         w.case('c15.accept', 'json', slot)
@@ -471,9 +489,12 @@ def c15_validate(w, ev, slot):
     else:
         path = store.new_path(w, '.h5.biom')
         with h5py.File(path, 'w') as f:
-            t.to_hdf5(f, 'sim-validate', compress=bool(a & 2),
-                      creation_date=datetime.datetime(2020, 2, 3, 4, 5, 6,
-                                                      (a >> 2) % 2 * 123456))
+            if (a >> 4) & 1:
+                t.to_hdf5(f, 'sim-validate', compress=bool(a & 2))
+            else:
+                t.to_hdf5(f, 'sim-validate', compress=bool(a & 2),
+                          creation_date=datetime.datetime(
+                              2020, 2, 3, 4, 5, 6, (a >> 2) % 2 * 123456))
         verdict, report = _validate(path, via_command=bool(a & 4))
         w.case('c15.accept', 'hdf5', slot)
         if not verdict:
